@@ -278,56 +278,76 @@ def _fields(body, op):
 
 
 def r3(ctx):
+    """the two verification functions evaluated (K6'): which key checks which signature over which bytes, and how the
+    results combine"""
+    from . import feval as E
     f = ctx.facts
     sv = f.body("sync::SignedEntry::verify")
-    ctx.touch(sv)
-    bi, t = one_call(sv, r"sync::EntrySignature::verify$")
-    recv = _fields(sv, t["a"][0])
-    ent = _fields(sv, t["a"][1])
-    ctx.check(recv == {"self.signature"}, "C03.R3", sv.path, "signature-of-this-entry", "receiver %s" % recv, t["sp"])
-    ctx.check(ent == {"self.entry"}, "C03.R3", sv.path, "entry-of-this-entry", "entry %s" % ent, t["sp"])
-    for idx, (what, keyfn) in enumerate((("namespace", "namespace"), ("author", "author"))):
-        origs = trace(sv, t["a"][2 + idx], through_calls=False)
-        ok = False
-        desc = []
-        for o in origs:
-            desc.append(origin_summary(o))
-            if o.kind == "call" and o.data["f"].get("name") == "branch":
-                inner = trace(sv, o.data["a"][0], through_calls=False)
-                for i2 in inner:
-                    if i2.kind == "call" and i2.data["f"].get("name") == "public_key":
-                        idsrc = trace(sv, i2.data["a"][0], through_calls=False)
-                        for i3 in idsrc:
-                            if i3.kind == "call" and i3.data["f"].get("name") == keyfn and _fields(sv, i3.data["a"][0]) == {"self.entry"}:
-                                ok = True
-        ctx.check(ok, "C03.R3", sv.path, "%s-key-from-own-id" % what, "%s public key derives from self.entry.%s(): %s" % (what, keyfn, desc), t["sp"])
-    ens = Ensures(f, r"sync::EntrySignature::verify$")
-    ok, why = ens.ensures_body(sv)
-    ctx.check(ok, "C03.R3", sv.path, "ok-only-if-signature-verify-ok", why, sv.sp)
+    ctx.touch(*f.scope(sv.path, prefix="sync::"))
+    SE = "sync::SignedEntry"
+    for nskey, aukey, sig in (("ok", "ok", "ok"), ("ok", "ok", "err"), ("err", "ok", "ok"), ("ok", "err", "ok")):
+        log = []
 
+        def oracle(kind, name, payload, site, nskey=nskey, aukey=aukey, sig=sig):
+            if kind != "call":
+                return None
+            t, args, it = payload
+            names = [it.tokname(a) for a in args]
+            if name in ("namespace", "author") and len(args) == 1:
+                return E.Tok("%s(%s)" % (name, names[0]))
+            if name == "public_key" and names:
+                which = "namespace" if names[0].startswith("namespace(") else ("author" if names[0].startswith("author(") else "?")
+                log.append(("public_key", names[0], names[1] if len(names) > 1 else None))
+                good = {"namespace": nskey, "author": aukey}.get(which, "err") == "ok"
+                return E.Ok(E.Tok("key-of(%s)" % names[0])) if good else E.Err(E.Tok("bad-key(%s)" % which))
+            if callee_matches(t, r"sync::EntrySignature::verify$"):
+                log.append(("signature.verify", names))
+                return E.Ok(E.UNIT) if sig == "ok" else E.Err(E.Tok("bad-signature"))
+            return None
+        heap = {"self": E.struct(f, SE, signature=E.Tok("sig(e)"), entry=E.Tok("entry(e)")), "store": E.Tok("store")}
+        try:
+            ret, hp, ev = E.run(f, sv.path, [E.href("self"), E.href("store")], heap, oracle)
+            got = E.describe(ret, f)
+        except E.Unsupported as ex:
+            got = "UNSUPPORTED-FORM: %s" % ex
+        all_ok = nskey == aukey == sig == "ok"
+        calls = [x for x in log if x[0] == "signature.verify"]
+        okc = (not calls) if "err" in (nskey, aukey) else calls == [("signature.verify", ["sig(e)", "entry(e)", "key-of(namespace(entry(e)))", "key-of(author(entry(e)))"])]
+        okr = (got == "Ok(())") if all_ok else got.startswith("Err(")
+        ctx.check(okc and okr, "C03.R3", sv.path, "verify[namespace-key=%s,author-key=%s,signature=%s]" % (nskey, aukey, sig),
+                  "returns %s; calls %s; spec: this entry's signature is verified over this entry with the keys of its own namespace and author ids; Ok only if both keys exist and the signature verifies" % (got, log), sv.sp)
     ev = f.body("sync::EntrySignature::verify")
-    ctx.touch(ev)
-    pairs = {"keys::NamespacePublicKey::verify": ("namespace", "namespace_signature"), "keys::AuthorPublicKey::verify": ("author", "author_signature")}
-    for callee, (keyarg, sigfield) in pairs.items():
-        cs = find_calls(ev, re.escape(callee) + "$")
-        if len(cs) != 1:
-            ctx.bad("C03.R3", ev.path, "calls-%s-once" % callee.split("::")[1], "found %d calls" % len(cs), ev.sp)
-            continue
-        cbi, ct = cs[0]
-        k = {o.data[1] for o in trace(ev, ct["a"][0]) if o.kind == "arg"}
-        sig = _fields(ev, ct["a"][2])
-        msg = trace(ev, ct["a"][1], view=re.compile(r"(^|::)(deref|as_ref|as_slice|borrow)$"))
-        msg_ok = False
-        for o in msg:
-            if o.kind == "call" and o.data["f"].get("name") == "to_vec" and callee_matches(o.data, r"sync::Entry::to_vec$"):
-                if {x.data[1] for x in trace(ev, o.data["a"][0]) if x.kind == "arg"} == {"entry"}:
-                    msg_ok = True
-        ctx.check(k == {keyarg}, "C03.R3", ev.path, "%s.key" % keyarg, "verifying key operand: %s" % k, ct["sp"])
-        ctx.check(sig == {"self.%s" % sigfield}, "C03.R3", ev.path, "%s.signature-field" % keyarg, "signature operand: %s (must be self.%s)" % (sig, sigfield), ct["sp"])
-        ctx.check(msg_ok, "C03.R3", ev.path, "%s.message-is-entry-canonical-bytes" % keyarg, "message = entry.to_vec()", ct["sp"])
-        e = Ensures(f, re.escape(callee) + "$")
-        ok, why = e.ensures_body(ev)
-        ctx.check(ok, "C03.R3", ev.path, "%s.result-propagated" % keyarg, why, ct["sp"])
+    ctx.touch(*f.scope(ev.path, prefix="sync::"))
+    ES = "sync::EntrySignature"
+    for nsres, aures in (("ok", "ok"), ("err", "ok"), ("ok", "err"), ("err", "err")):
+        log = []
+
+        def oracle(kind, name, payload, site, nsres=nsres, aures=aures):
+            if kind != "call":
+                return None
+            t, args, it = payload
+            names = [it.tokname(a) for a in args]
+            if callee_matches(t, r"sync::Entry::(to_vec|encode)$") or (name in ("to_vec", "encode") and names and names[0] == "entry"):
+                return E.Tok("canonical-bytes(%s)" % names[0])
+            if callee_matches(t, r"keys::(NamespacePublicKey|AuthorPublicKey)::verify$"):
+                who = "namespace" if "NamespacePublicKey" in (t["f"].get("path") or "") + (t["f"].get("full") or "") else "author"
+                log.append((who + "-key.verify", names))
+                return E.Ok(E.UNIT) if {"namespace": nsres, "author": aures}[who] == "ok" else E.Err(E.Tok("bad-%s-signature" % who))
+            if name in ("as_ref", "as_slice", "deref", "borrow") and len(args) == 1:
+                return args[0]
+            return None
+        heap = {"self": E.struct(f, ES, author_signature=E.Tok("author-sig"), namespace_signature=E.Tok("namespace-sig")), "entry": E.Tok("entry"), "nk": E.Tok("namespace-key"), "ak": E.Tok("author-key")}
+        try:
+            ret, hp, evs = E.run(f, ev.path, [E.href("self"), E.href("entry"), E.href("nk"), E.href("ak")], heap, oracle)
+            got = E.describe(ret, f)
+        except E.Unsupported as ex:
+            got = "UNSUPPORTED-FORM: %s" % ex
+        want_ns = ("namespace-key.verify", ["namespace-key", "canonical-bytes(entry)", "namespace-sig"])
+        want_au = ("author-key.verify", ["author-key", "canonical-bytes(entry)", "author-sig"])
+        okp = all(x in (want_ns, want_au) for x in log) and (nsres == "err" or aures == "err" or sorted(log) == sorted([want_ns, want_au]))
+        okr = (got == "Ok(())") if (nsres == aures == "ok") else got.startswith("Err(")
+        ctx.check(okp and okr, "C03.R3", ev.path, "signature-pairing[namespace=%s,author=%s]" % (nsres, aures),
+                  "returns %s; checks %s; spec: the namespace key checks the namespace signature and the author key the author signature, both over the entry's canonical bytes; Ok only if both verify" % (got, log), ev.sp)
     # the public key wrappers delegate to the real verification with the same operands
     for path in ("keys::NamespacePublicKey::verify", "keys::AuthorPublicKey::verify"):
         kb = f.body(path)
@@ -340,7 +360,7 @@ def r3(ctx):
                   {o.data[1] for o in trace(kb, a[2]) if o.kind == "arg"} == {"signature"} and
                   _fields(kb, a[0]) == {"self.0"})
         ctx.check(ok, "C03.R3", path, "delegates(msg,signature)", "returns the verdict of PublicKey::verify(self.0, msg, signature)", kb.sp)
-    ctx.floor("C03.R3", 14)
+    ctx.floor("C03.R3", 10)
 
 
 def r4(ctx):
